@@ -14,7 +14,12 @@ VARIABLES flow, script, pc, i, params, outcome
 vars == <<flow, script, pc, i, params, outcome>>
 
 Valid(f) == IF f = "plain" THEN ValidPlain ELSE ValidEnc
-Scripts(f) == IF K = 0 THEN {Valid(f)} ELSE IF K = 1 THEN Edits1(Valid(f)) \cup {Valid(f)} ELSE Edits2(Valid(f))
+Other(f) == IF f = "plain" THEN "enc" ELSE "plain"
+\* the neighbourhood of the flow's own valid script, and the replies of the *other* flow (a server that
+\* answers an encrypted login with the plain acceptance, and the other way round) with their single edits
+Scripts(f) == IF K = 0 THEN {Valid(f)}
+              ELSE (IF K = 1 THEN Edits1(Valid(f)) \cup {Valid(f)} ELSE Edits2(Valid(f)))
+                   \cup {Valid(Other(f))} \cup Edits1(Valid(Other(f)))
 D == Delivered(flow, script)
 None == P("none", "x")
 Cur == IF i <= Len(D) THEN D[i] ELSE None
